@@ -96,3 +96,28 @@ Proof.
   rewrite (add_p_ok prof num 2) by lia. cbn [bindT].
   destruct (num + 2 =? next_c e); reflexivity.
 Qed.
+
+(** the holder-side update: [EnforcementState::set_next_holder_commit_num] is the model's
+    [advance_h] when the number is the successor of the current one, and a panic (its assert_eq!)
+    otherwise.  (The model's [advance_h] also clears the pending next commitment, a field outside
+    the translated record that channel.rs clears itself; the signatures go into the frame.) *)
+Theorem gen_set_holder_is_model prof fr e num c sigs :
+  next_h e < U64MAX ->
+  gen_set_next_holder_commit_num prof (to_res fr e) num c sigs =
+  if num =? next_h e + 1
+  then Val (to_res (mkF (Some sigs) (f_initial fr) (f_secrets fr)) (advance_h e c))
+  else Trap.
+Proof.
+  intros Hh. unfold gen_set_next_holder_commit_num, advance_h.
+  cbn [to_res res_next_holder_commit_num].
+  rewrite (add_p_ok prof (next_h e) 1) by lia. cbn [bindT].
+  destruct (num =? next_h e + 1) eqn:E; [|reflexivity].
+  apply N.eqb_eq in E. subst num.
+  cbn [to_res f_sigs f_initial f_secrets
+       next_h next_c next_r cur_pt prev_pt cur_h nxt_h cur_c prev_c closed secrets
+       res_next_holder_commit_num res_next_counterparty_commit_num res_next_counterparty_revoke_num
+       res_current_counterparty_point res_previous_counterparty_point res_current_holder_commit_info
+       res_current_counterparty_signatures res_current_counterparty_commit_info
+       res_previous_counterparty_commit_info res_channel_closed res_initial_holder_value res_counterparty_secrets].
+  reflexivity.
+Qed.
